@@ -386,7 +386,7 @@ Definition handle_control_frame (fx : fixes) (c : conn) (t : Z) (d : list Z) : o
 Inductive ures :=
 | ULoop (st : hstream) (c : conn) (unb : list Z)
 | URet (evs : list event) (st : hstream) (c : conn)
-| UErr (code : Z)
+| UErr (code : Z) (c : conn)     (* the connection as mutated before the raise (received_settings, max_push_id) *)
 | UExn (k : Z).
 
 Definition pull_frame (b : list Z) : option (Z * list Z * list Z) :=
@@ -427,17 +427,17 @@ Fixpoint uni_loop (fuel : nat) (fx : fixes) (O : oracle) (fin : bool)
       end in
     match typed with
     | None => ULoop (set_buf st b) c unb
-    | Some (inr _) => UErr H3_STREAM_CREATION_ERROR
+    | Some (inr _) => UErr H3_STREAM_CREATION_ERROR c
     | Some (inl (t, b, c)) =>
       let st := set_stype st (Some t) in
       if t =? 0 then
-        if fin then UErr H3_CLOSED_CRITICAL_STREAM else
+        if fin then UErr H3_CLOSED_CRITICAL_STREAM c else
         match pull_frame b with
         | None => ULoop (set_buf st b) c unb
         | Some (ft, fd, b') =>
             match handle_control_frame fx c ft fd with
             | Val c' => uni_loop fuel fx O fin st c' b' unb
-            | PErr k => UErr k
+            | PErr k => UErr k c
             | Exn k => UExn k
             end
         end
@@ -466,35 +466,40 @@ Fixpoint uni_loop (fuel : nat) (fx : fixes) (O : oracle) (fin : bool)
             URet (if negb (is_nil b) || fin then [EWT (s_id st) sess b (s_ended st)] else []) (set_buf st []) c
         end
       else if t =? 3 then
-        if o_ds O b then uni_loop fuel fx O fin st c [] unb else UErr QPACK_DECODER_STREAM_ERROR
+        if o_ds O b then uni_loop fuel fx O fin st c [] unb else UErr QPACK_DECODER_STREAM_ERROR c
       else if t =? 2 then
         match o_enc O b with
         | EUnblocked l => uni_loop fuel fx O fin st c [] (unb ++ l)
-        | EEncErr => UErr QPACK_ENCODER_STREAM_ERROR
+        | EEncErr => UErr QPACK_ENCODER_STREAM_ERROR c
         end
       else uni_loop fuel fx O fin st c [] unb
     end
   end.
 
 (* the "process unblocked streams" loop *)
-Fixpoint unblock (fx : fixes) (O : oracle) (c : conn) (unb : list Z) (evs : list event) : out (list event * conn) :=
+Inductive rsd :=
+| SVal (evs : list event) (c : conn)
+| SErr (code : Z) (c : conn)
+| SExn (k : Z).
+
+Fixpoint unblock (fx : fixes) (O : oracle) (c : conn) (unb : list Z) (evs : list event) : rsd :=
   match unb with
-  | [] => Val (evs, c)
+  | [] => SVal evs c
   | sid :: rest =>
       match find_stream sid (c_streams c) with
-      | None => Exn X_UNBLOCK_KEY
+      | None => SExn X_UNBLOCK_KEY
       | Some s =>
           match handle_rp_frame fx O (c_client c) 1 None s (s_ended s && is_nil (s_buf s)) with
-          | HBlocked => Exn X_UNBLOCK_BLOCKED
-          | HErr k => PErr k
-          | HExn k => Exn k
+          | HBlocked => SExn X_UNBLOCK_BLOCKED
+          | HErr k => SErr k c
+          | HExn k => SExn k
           | HVal e s1 =>
               let s2 := set_blocked s1 false in
               if negb (is_nil (s_buf s2)) then
                 match rq_recv fx O (c_client c) s2 [] (s_ended s2) with
                 | RVal e2 s3 => unblock fx O (set_streams c (put_stream s3 (c_streams c))) rest (evs ++ e ++ e2)
-                | RErr k => PErr k
-                | RExn k => Exn k
+                | RErr k => SErr k c
+                | RExn k => SExn k
                 end
               else unblock fx O (set_streams c (put_stream s2 (c_streams c))) rest (evs ++ e)
           end
@@ -513,30 +518,30 @@ Definition uni_fuel (b : list Z) : nat := S (S (S (length b))).
 
 (* _receive_stream_data *)
 Definition receive_stream_data (fx : fixes) (O : oracle) (c0 : conn) (sid : Z) (data : list Z) (fin : bool)
-  : out (list event * conn) :=
+  : rsd :=
   let '(s0, c) := get_or_create c0 sid in
   if is_uni sid then
     let st := set_ended (set_buf s0 (s_buf s0 ++ data)) (s_ended s0 || fin) in
     match uni_loop (uni_fuel (s_buf st)) fx O fin st c (s_buf st) [] with
-    | UErr k => PErr k
-    | UExn k => Exn k
+    | UErr k c' => SErr k c'
+    | UExn k => SExn k
     | URet evs st c =>
         match s_stype st with
         | Some 1 =>
             match rq_recv fx O (c_client c) st [] fin with
-            | RVal e st' => Val (e, set_streams c (put_stream st' (c_streams c)))
-            | RErr k => PErr k
-            | RExn k => Exn k
+            | RVal e st' => SVal e (set_streams c (put_stream st' (c_streams c)))
+            | RErr k => SErr k c
+            | RExn k => SExn k
             end
-        | _ => Val (evs, set_streams c (put_stream st (c_streams c)))
+        | _ => SVal evs (set_streams c (put_stream st (c_streams c)))
         end
     | ULoop st c unb => unblock fx O (set_streams c (put_stream st (c_streams c))) unb []
     end
   else
     match rq_recv fx O (c_client c) s0 data fin with
-    | RVal e st' => Val (e, set_streams c (put_stream st' (c_streams c)))
-    | RErr k => PErr k
-    | RExn k => Exn k
+    | RVal e st' => SVal e (set_streams c (put_stream st' (c_streams c)))
+    | RErr k => SErr k c
+    | RExn k => SExn k
     end.
 
 Definition receive_datagram (d : list Z) : out (list event) :=
@@ -561,9 +566,9 @@ Definition handle_event (fx : fixes) (O : oracle) (c : conn) (ev : qevent) : hou
   match ev with
   | QStream sid data fin =>
       match receive_stream_data fx O c sid data fin with
-      | Val (evs, c') => (Events evs, c')
-      | PErr k => (Closed k, set_done c true)
-      | Exn k => (Raised k, c)
+      | SVal evs c' => (Events evs, c')
+      | SErr k c' => (Closed k, set_done c' true)
+      | SExn k => (Raised k, c)
       end
   | QDatagram d =>
       match receive_datagram d with
@@ -689,7 +694,7 @@ Fixpoint exec_h3_ops (fuel : nat) (fx : fixes) (c : conn) (t : list Z) : list Z 
       let '(d, t) := tk_list t in
       let '(orc, t) := rd_oracle t in
       let '(o, c') := handle_event fx orc c (QStream sid d (z2b fin)) in
-      out_hout o ++ obs_conn c' ++ match o with Raised _ => [] | _ => exec_h3_ops fuel fx c' t end
+      out_hout o ++ match o with Raised _ => [] | _ => obs_conn c' ++ exec_h3_ops fuel fx c' t end
   | 1 :: t =>
       let '(d, t) := tk_list t in
       let '(o, c') := handle_event fx (mkO (fun _ _ => DFailed) (fun _ => DFailed) (fun _ _ => (false, None))
